@@ -1,0 +1,14 @@
+//go:build verif
+
+package scrapligo
+
+import (
+	scraplinetconf "github.com/scrapli/scrapligo/driver/netconf"
+)
+
+// NewForVerif wraps an already opened scrapligo NETCONF driver (the production
+// constructor dials SSH); the verification harness opens the driver over an
+// in-memory transport that plays the NETCONF server.
+func NewForVerif(d *scraplinetconf.Driver) *ScrapligoNetconfTarget {
+	return &ScrapligoNetconfTarget{driver: d}
+}
